@@ -31,19 +31,28 @@ str_to_int = z3.Function("str_to_int", z3.StringSort(), z3.IntSort())   # value 
 re_escape = z3.Function("re_escape", z3.StringSort(), z3.StringSort())
 
 DIGITS = z3.Plus(z3.Range("0", "9"))
-MAX_STR_DIGITS = 4300
 
 
 def int_axioms(e: Engine, st: State, s):
-    """What is assumed about int(s): on ASCII digit strings it agrees with str.to_int and is defined
-    up to CPython's default 4300-digit limit; beyond it, it raises ValueError; isdigit() is implied by
-    ASCII digits but is a wider predicate."""
-    st.assume(Implies(z3.InRe(s, z3.Loop(z3.Range("0", "9"), 1, MAX_STR_DIGITS)),
-                      And(int_ok(s), str_to_int(s) == z3.StrToInt(s), str_to_int(s) >= 0)))
-    st.assume(Implies(And(z3.InRe(s, DIGITS), z3.Length(s) > MAX_STR_DIGITS), Not(int_ok(s))))
-    st.assume(Implies(z3.InRe(s, DIGITS), str_isdigit(s)))
-    st.assume(Implies(str_isdigit(s), z3.Length(s) >= 1))
-    e.trust("E-INT: int(s) on ASCII digit strings equals str.to_int(s), defined iff <= 4300 digits (sys.int_info.default_max_str_digits)")
+    """What is assumed about int(s) and str.isdigit() (E-INT), with the code-point classes read from the
+    CPython that runs eyecite: int() accepts 1..4300 decimal digits (Unicode Nd), agrees with str.to_int on
+    ASCII digits, raises beyond CPython's 4300-digit limit and on isdigit()-but-not-decimal characters
+    such as superscripts; s.isdigit() <=> every character is an isdigit() character and s is non-empty."""
+    from .cpy_tables import char_class, tables
+    key = s.sexpr()
+    done = st.__dict__.setdefault("_int_ax", set())
+    if key in done:
+        return
+    done.add(key)
+    D = char_class("re_d")
+    maxd = tables()["max_str_digits"]
+    st.assume(Implies(z3.InRe(s, z3.Loop(D, 1, maxd)), And(int_ok(s), str_to_int(s) >= 0)))
+    st.assume(Implies(And(z3.InRe(s, z3.Plus(D)), z3.Length(s) <= maxd), And(int_ok(s), str_to_int(s) >= 0)))
+    st.assume(Implies(z3.InRe(s, z3.Loop(z3.Range("0", "9"), 1, maxd)), str_to_int(s) == z3.StrToInt(s)))
+    st.assume(Implies(And(z3.InRe(s, z3.Plus(D)), z3.Length(s) > maxd), Not(int_ok(s))))
+    st.assume(str_isdigit(s) == z3.InRe(s, z3.Plus(char_class("isdigit"))))
+    st.assume(Implies(And(str_isdigit(s), Not(z3.InRe(s, z3.Plus(D)))), Not(int_ok(s))))
+    e.trust("E-INT: int(s)/str.isdigit() per CPython tables: int accepts 1..4300 Unicode decimal digits, equals str.to_int on ASCII digits, raises ValueError beyond sys.get_int_max_str_digits() and on non-decimal isdigit() characters")
 
 
 def match_group_sv(e: Engine, st: State, m: SV, g) -> SV:
@@ -324,7 +333,7 @@ def builtin(e: Engine, st: State, name: str, args: List[SV], kw: Dict[str, SV], 
         raise Unsupported(f"{name}() of {a.ty}")
     if name == "set":
         if not args:
-            raise Unsupported("empty set()")
+            return SV(Ty("small"), [])
         a = args[0]
         if a.ty.kind == "seq":
             return SV(SETOF(a.ty.elts[0]), a.v, tag=("setofseq", a))
@@ -365,6 +374,17 @@ def builtin(e: Engine, st: State, name: str, args: List[SV], kw: Dict[str, SV], 
         if fn is None:
             raise Unsupported("hash() without hash_of spec")
         return fn(e, st, a)
+    if name == "defaultdict":
+        hint = getattr(e, "_list_hint", None)
+        if hint is None or hint.kind != "dict":
+            raise Unsupported("defaultdict() without a declared dict type")
+        ty = Ty("dict", "defaultdict", hint.elts)
+        sorts = flat_sorts(ty)
+        from .values import _default_of_sort
+        comps = [_default_of_sort(x) for x in sorts]
+        sv = from_flat(ty, comps)
+        sv.none = FALSE
+        return sv
     if name in ("bisect_left", "bisect_right"):
         return bisect_(e, st, name, args)
     raise Unsupported(f"builtin {name}")
@@ -604,6 +624,10 @@ def method(e: Engine, st: State, tag, args: List[SV], kw, n: ast.Call) -> SV:
         if q in e.reg.contracts:
             return finish_call(e, st, q, [recv] + args, kw, n, [recv_node] + list(n.args))
         raise Unsupported(f"method {attr} on {recv.ty} (static class {cls})")
+    if k == "small" and attr == "add":
+        new = SV(Ty("small"), list(recv.v) + [(And(*e.guards), args[0])])
+        e.update_lvalue(recv_node, new, st)
+        return none_sv()
     if k == "small" or k == "tuple":
         raise Unsupported(f"method {attr} on {recv.ty}")
     raise Unsupported(f"method {attr} on {recv.ty}")
@@ -771,11 +795,33 @@ def match_method(e: Engine, st: State, m: SV, attr: str, args) -> SV:
 
 def attr_call(e: Engine, st: State, tag, args, kw, n) -> SV:
     base, attr = tag[1], tag[2]
+    if base[0] == "bound" and base[2] == "__dict__" and attr == "values":
+        return dict_values_of_metadata(e, st, base[1])
     # datetime.now().year / date.today().year
     if base in (("builtin", "datetime"), ("builtin", "date")) and attr in ("now", "today"):
         o = SV(OBJ("datetime"), z3.Const("NOW", Obj))
         return o
     raise Unsupported(f"call {tag}")
+
+
+def dict_values_of_metadata(e: Engine, st: State, md: SV) -> SV:
+    """metadata.__dict__.values(): the values of exactly the dataclass fields of the object's own Metadata class."""
+    e.may_raise("AttributeError", md.none, "__dict__-none")
+    fields = {}
+    for cname, ci in e.repo.classes.items():
+        if not cname.endswith(".Metadata"):
+            continue
+        for f in e.repo.all_fields(cname):
+            fields.setdefault(f.name, []).append(cname)
+    out = []
+    for fname, classes in sorted(fields.items()):
+        cond = Or(*[class_of(md.v) == e.repo.classes[c].cid for c in classes])
+        ty = e.field_type(e.repo.field_owner(classes[0], fname), fname)
+        arrs = e.heap_get(st, f"Metadata*.{fname}", ty)
+        val = from_flat(ty, [z3.Select(a, md.v) for a in arrs])
+        out.append((cond, val))
+    e.trust("E-DATACLASS: instance.__dict__ of a Metadata dataclass holds exactly its declared fields")
+    return SV(Ty("small"), out)
 
 
 def call_with_starstar(e, st, f, n, args):
